@@ -246,7 +246,7 @@ def real_bank_oracle(ctx):
             style = special[6:]
         if special and special.startswith("bursts:"):
             which, _, style = BURSTS[case_no]
-            flags.update(use_log=True, include_energy=False)
+            flags.update(use_log=True, include_energy=False, use_power=False, pad_to_nearest_power_of_two=True)
         shift_ms = r.choice([2.0, 5.0, 10.0])
         if case_no in BURSTS:
             shift_ms = 3.0
